@@ -1,10 +1,10 @@
 CONSTANTS
-  MaxLen = 3
+  MaxLen = 2
   Minters <- Names
   Fams <- FamsAll
   DeepLen = 3
   DeepMinters <- Names
-  DeepFams <- FamsAll
+  DeepFams <- FamsDeepT
   ProcessWideCache = FALSE
 INIT Init
 NEXT Next
